@@ -136,7 +136,7 @@ def run(ck):
 
     # ---- (b) real fits ----
     rng = np.random.default_rng(ck.seed + 606)
-    nfits = ck.n(40, 400)
+    nfits = ck.n(60, 420)
     cases = []
     meta = {}
     for i in range(nfits):
@@ -152,8 +152,10 @@ def run(ck):
         if quota is not None and n < 2 ** (quota + 1):
             quota = None
         method = SPLIT_METHODS[i % len(SPLIT_METHODS)]
-        kind = DATA_KINDS[(i // 2) % len(DATA_KINDS)]
+        kind = DATA_KINDS[(i // len(SPLIT_METHODS) + i) % len(DATA_KINDS)]      # every (split method, data kind) pair within the first 60 fits
         d = int(rng.integers(2, 6))
+        if kind == 'constcol':
+            d = max(d, 4)            # at least two identical constant columns: exactly singular X^T X
         task = ['reg', 'class'][int(rng.integers(0, 2))]
         X = xr.make_X(kind, n, d, rng)
         y = xr.make_y(task, X, rng)
